@@ -2,10 +2,37 @@
 
 package proxy
 
-import "net/http"
+import (
+	"net/http"
+	"time"
+
+	"github.com/megaease/easegress/pkg/filters"
+	"github.com/megaease/easegress/pkg/protocols/httpprot/httpstat"
+)
 
 // VerifC13StubSend replaces the backend transport of the Proxy filter (C13
 // harness: accepted specs are instantiated without any network access).
 func VerifC13StubSend(f func(r *http.Request, client *http.Client) (*http.Response, error)) {
 	fnSendRequest = f
+}
+
+// VerifC13StatDurations feeds request durations into the statistics objects the
+// pools of an instantiated Proxy use on the request path (collectMetrics). The
+// clock (fasttime) cannot be replaced, so a request that took minutes or hours
+// is represented by its metric.
+func VerifC13StatDurations(f filters.Filter, ds []time.Duration) {
+	p, ok := f.(*Proxy)
+	if !ok {
+		return
+	}
+	pools := append([]*ServerPool{p.mainPool, p.mirrorPool}, p.candidatePools...)
+	for _, sp := range pools {
+		if sp == nil || sp.httpStat == nil {
+			continue
+		}
+		for _, d := range ds {
+			sp.httpStat.Stat(&httpstat.Metric{StatusCode: 200, Duration: d, ReqSize: 10, RespSize: 10})
+		}
+		sp.httpStat.Status()
+	}
 }
